@@ -290,6 +290,7 @@ func svcScenario(name string, pre int, tiers string) *explore.Scenario {
 // ---- service safe points (engine B) ----
 
 type svcOp struct {
+	failAt  int    // > 0: the failAt-th storage request of the call is refused
 	kind    string // "upd" or "tick"
 	service string
 	ttl     int64
@@ -305,7 +306,33 @@ func (o svcOp) String() string {
 	if o.ttl == math.MaxInt64 {
 		t = "inf"
 	}
+	if o.failAt > 0 {
+		return fmt.Sprintf("%s(ttl=%s,sp=%d)[storage request #%d refused]", o.service, t, o.sp, o.failAt)
+	}
 	return fmt.Sprintf("%s(ttl=%s,sp=%d)", o.service, t, o.sp)
+}
+
+// newSvcModelFaults: a smaller alphabet, every call also with its 1st .. 4th storage request refused.
+func newSvcModelFaults() *svcModel {
+	m := newSvcModel(false)
+	var ops []svcOp
+	for _, o := range m.ops {
+		if o.kind == "tick" || o.service == "b/gc_worker" || o.sp == 30 || o.ttl == -1 || o.ttl == math.MaxInt64-1 {
+			if o.kind != "tick" {
+				continue
+			}
+		}
+		ops = append(ops, o)
+		if o.kind == "upd" {
+			for k := 1; k <= 4; k++ {
+				f := o
+				f.failAt = k
+				ops = append(ops, f)
+			}
+		}
+	}
+	m.ops = ops
+	return m
 }
 
 type ent struct {
@@ -472,13 +499,23 @@ func (m *svcModel) Apply(i int) *hist.Violation {
 		return nil
 	}
 	before, _ := m.stored()
+	m.st.FailNth = o.failAt
 	resp, err := m.s.UpdateServiceGCSafePoint(context.Background(), &pdpb.UpdateServiceGCSafePointRequest{
 		Header: m.s.Header(), ServiceId: []byte(o.service), TTL: o.ttl, SafePoint: o.sp})
+	faulted := o.failAt > 0 && m.st.FailNth == 0
+	m.st.FailNth = 0
 	after, serr := m.stored()
 	if serr != nil {
 		return &hist.Violation{Key: "stored-garbage", Msg: serr.Error()}
 	}
 	now := m.nowUnix()
+	if faulted && err != nil {
+		// a storage request of this call was refused and the call reported an error: nothing was
+		// acknowledged; the reference continues from what is stored
+		m.ref = after
+		m.last = "err=fault"
+		return nil
+	}
 	minName, min, refErr := m.refState.apply(o.service, o.ttl, o.sp, now)
 	m.last = fmt.Sprintf("err=%v", err != nil)
 	// ---- invariants from the statement ----
@@ -490,7 +527,7 @@ func (m *svcModel) Apply(i int) *hist.Violation {
 			if e.exp >= now && resp.MinSafePoint > e.sp {
 				return &hist.Violation{Key: "min-above-live-service", Msg: fmt.Sprintf("after %s the reported minimum %d is above the safe point %d of live service %s", o, resp.MinSafePoint, e.sp, name)}
 			}
-			if e.exp < now {
+			if e.exp < now && !faulted {
 				return &hist.Violation{Key: "expired-entry-kept", Msg: fmt.Sprintf("after %s the expired entry of %s (expired_at %d, now %d) is still stored", o, name, e.exp, now)}
 			}
 		}
@@ -640,6 +677,7 @@ func main() {
 		},
 		HistScopes: []*hist.Scope{
 			{Name: "service-safepoints", Tiers: "quick", Depth: 3, NewModel: func() hist.Model { return newSvcModel(false) }},
+			{Name: "service-safepoints/storage-faults", Tiers: "quick", Depth: 3, NewModel: func() hist.Model { return newSvcModelFaults() }},
 			{Name: "service-safepoints/full", Tiers: "thorough", Depth: 4, NewModel: func() hist.Model { return newSvcModel(true) }},
 		},
 		Rule: "part 1: all schedules of concurrent UpdateGCSafePoint calls at the granularity of storage reads/writes; part 2: all sequences of service safe point operations (register/renew/remove x TTL x safe point, time passing) up to the depth, deduplicated by stored set with relative expiry",
